@@ -177,3 +177,19 @@ Proof.
   destruct (find (fun p => sg_idx (snd p) <=? index) (rev (combine (seq (S i) (length r)) r))) as [[j ?]|]; [reflexivity|].
   cbn [find snd]. destruct (sg_idx f <=? index); reflexivity.
 Qed.
+
+(* Open's selection on a directory the wal wrote: exactly the files from the last one whose name index is
+   <= the snapshot index on (the order check never rejects) *)
+Theorem select_written opt seg meta ops snap :
+  select_files (w_files (w_run opt seg meta ops)) snap =
+  match search_index (w_files (w_run opt seg meta ops)) (sn_index snap) 0 None with
+  | Some i => Some (skipn i (w_files (w_run opt seg meta ops)))
+  | None => None
+  end.
+Proof.
+  unfold select_files.
+  destruct (w_files (w_run opt seg meta ops)) as [|f r] eqn:E.
+  - reflexivity.
+  - destruct (search_index (f :: r) (sn_index snap) 0 None) as [i|]; [|reflexivity].
+    rewrite <- E. now rewrite written_directory_valid_seq.
+Qed.
